@@ -40,7 +40,8 @@ def eeprom_image(serial):
 
 def gen_case(rng):
     mode = rng.choice(["initialize", "scan", "scan+initialize",
-                       "scan||initialize", "scan||initialize"])
+                       "scan||initialize", "scan||initialize",
+                       "two-masters"])
     n = rng.randint(2, 40)
     if mode == "scan||initialize":
         n = rng.randint(2, 6)      # few addresses: collisions are likely
@@ -114,6 +115,38 @@ def run_case(case):
                 result["truncated"] = result.get("truncated", 0) + 1
             return [(case["delays"][k[0] % len(case["delays"])], resp)]
         bus.attach(ec, loop, b, policy)
+        if case["mode"] == "two-masters":
+            # a second master on the same segment (same ethertype): both
+            # see every returning frame; each initialises its own terminals
+            # out of its own half of the range
+            ec2 = EtherCat("vf")
+            lo, hi = case["range"]
+            mid = (lo + hi) // 2
+            ec.terminal_addr_range = (lo, mid)
+            ec2.terminal_addr_range = (mid + 1, hi)
+            masters = [ec, ec2]
+
+            def mk(me):
+                def pol(nf, data):
+                    k[0] += 1
+                    resp = b.process(data)
+                    d = case["delays"][k[0] % len(case["delays"])]
+                    for other in masters:
+                        if other is not me:
+                            loop.call_later(d, other.datagram_received,
+                                            resp, None)
+                    return [(d, resp)]
+                return pol
+            ec.transport.policy = mk(ec)
+            bus.attach(ec2, loop, b, mk(ec2))
+            ts1 = [Terminal(ec) for _ in range(n)]
+            ts2 = [Terminal(ec2) for _ in range(n)]
+            jobs = []
+            for i in range(n):
+                t = (ts1 if i % 2 == 0 else ts2)[i]
+                jobs.append(t.initialize(relative=-i))
+            await asyncio.wait_for(asyncio.gather(*jobs), 5000)
+            return
         if case["mode"] == "scan||initialize":
             # a scan while terminals are being initialised one by one
             ts = [Terminal(ec) for _ in range(n)]
@@ -238,7 +271,8 @@ def run_shard(params):
 
 def finalize(res, tier, seed):
     c = res.counters
-    for m in ("initialize", "scan", "scan+initialize", "scan||initialize"):
+    for m in ("initialize", "scan", "scan+initialize", "scan||initialize",
+              "two-masters"):
         if not c.get(f"mode[{m}]"):
             res.inconc(f"mode {m} never ran")
 
